@@ -325,7 +325,7 @@ Proof.
   intros st s bs st' o H Hb. unfold step_add_bases.
   destruct (negb (is_kind st KSpace s && forallb (is_kind st KSpace) bs)); [intros E; inversion E; subst; exact H|].
   destruct (existsb (fun b => N.eqb b s || memN s (ancs_of st b)) bs); intros E; inversion E; subst; [exact H|].
-  apply res_create_derived, res_clear_derived, res_upd_cont; [exact H|].
+  apply res_create_derived, res_discard_items, res_clear_derived, res_upd_cont; [exact H|].
   intros c x Hx. apply cont_uids_with_bases in Hx as [Hx|Hx]; [left; exact Hx|].
   apply dedupN_incl in Hx. apply in_app_iff in Hx as [Hx|Hx].
   - right. exact (res_bases_alive _ _ _ H Hx).
